@@ -368,6 +368,9 @@ func (fam *family) groupFault(c *corr.Ctx, p cu.EncParams, frames []cu.Frame, or
 			}
 		}
 	}
+	for k, n := range b.classes {
+		c.DistN(s.Name+".fault-"+k, n)
+	}
 	b.cs.Nontrivial = len(in.Faults) > 0
 	c.Add(b.cs)
 }
